@@ -225,6 +225,10 @@ func (p *protocol) handleTransactionPayload(ctx context.Context, connection grpc
 		return err
 	}
 
+	if p.privatePayloadReceiver == nil {
+		// no node DID configured: there is no job to remove
+		return nil
+	}
 	// it's saved, remove the job
 	return p.privatePayloadReceiver.Finished(ref)
 }
